@@ -32,6 +32,21 @@ pub fn size_strategy() -> impl Strategy<Value = u32> {
 /// in steps or treat large samples specially)
 pub const BIG_SIZES: [u32; 9] = [65_535, 65_536, 65_537, 70_001, 131_072, 131_073, 200_003, 1 << 20, (1 << 20) + 1];
 
+/// Legal content that is part of the logical movie (not layout): a header-only edts on tracks
+/// without edit list (1 in 6), a constant sample_size in the empty stsz of fragmented tracks (1 in
+/// 3), a chunk whose offset is 0 (1 in 24 of the movies with table samples). `x` selects.
+pub fn logical_extras(m: &mut Movie, x: u16) {
+    let x = x as usize;
+    m.empty_edts = x % 6 == 1;
+    m.frag_stsz_size = if x % 3 == 0 { 1 + (x % 1000) as u32 } else { 0 };
+    if x % 24 == 5 {
+        let cands: Vec<(usize, usize)> = m.tracks.iter().enumerate().flat_map(|(ti, t)| (0..t.chunks.len()).map(move |ci| (ti, ci))).collect();
+        if !cands.is_empty() {
+            m.zero_chunk = Some(cands[(x / 24) % cands.len()]);
+        }
+    }
+}
+
 /// With probability `weight`, one sample of the movie (table or fragment run) gets a size from
 /// `BIG_SIZES`; everything else about the movie is unchanged.
 /// Also, with probability 0.08, the last top-level box (when it is an mdat) is written with size 0,
@@ -42,6 +57,7 @@ pub fn with_big_sample<S: Strategy<Value = Movie>>(s: S, weight: f64) -> impl St
     (s, prop::bool::weighted(weight), any::<u16>(), 0usize..BIG_SIZES.len(), prop::bool::weighted(0.08), huge).prop_map(|(mut m, on, frac, cls, to_eof, huge)| {
         m.last_to_eof = to_eof;
         m.huge = huge;
+        logical_extras(&mut m, frac);
         if on {
             let mut slots: Vec<(usize, usize, usize)> = Vec::new(); // (0, track, sample) | (1 + frag, traf, sample)
             for (ti, t) in m.tracks.iter().enumerate() {
@@ -123,6 +139,10 @@ pub fn cc_strategy() -> impl Strategy<Value = Cc> {
         Just(cc("mp42")),
         Just(cc("iso5")),
         Just(cc("avc1")),
+        Just(cc("qt  ")),
+        Just(cc("M4A ")),
+        Just(cc("dash")),
+        Just(cc("ISOM")),
         any::<[u8; 4]>(),
     ]
 }
@@ -270,6 +290,9 @@ pub fn movie_shell(tracks: Vec<Track>) -> Movie {
         moov_meta: None,
         frag_mdhd_dur: 0,
         huge: None,
+        frag_stsz_size: 0,
+        empty_edts: false,
+        zero_chunk: None,
     }
 }
 
@@ -491,6 +514,11 @@ pub fn utf8_text() -> impl Strategy<Value = Vec<u8>> {
         2 => "\\PC{1,16}".prop_map(|s| s.into_bytes()),
         1 => "[a-z ]{200,400}".prop_map(|s| s.into_bytes()),
         1 => prop::collection::vec(b'a'..=b'z', 65536..65600),
+        // text a lenient reader might be tempted to tidy up: byte-order mark, NUL, surrounding blanks
+        1 => ("[ -~]{0,12}", 0usize..5).prop_map(|(s, k)| {
+            let (pre, post): (&[u8], &[u8]) = [(&[0xEF, 0xBB, 0xBF][..], &[][..]), (&[0xEF, 0xBB, 0xBF, 0xEF, 0xBB, 0xBF][..], &[][..]), (&[][..], &[0][..]), (b"  ", b" \n"), (&[][..], &[0xEF, 0xBB, 0xBF][..])][k];
+            [pre, s.as_bytes(), post].concat()
+        }),
     ]
 }
 
